@@ -50,6 +50,8 @@ def build(cfg):
         import numpy as _np
         N = _np.int64(N) if cfg["N_repr"] == "numpy_int64" else _np.int32(N)
     kw = dict(cfg.get("kw", {}))
+    kb = {k_: v_ for k_, v_ in cfg.get("kw_built", {}).items() if k_ in kw and kw[k_] != v_}   # (a stratum may have dropped the key)
+    kw.update(kb)
     obj = cls(test=getattr(cls, cfg["test"]),
               estim=getattr(cls, cfg["estim"]) if cfg.get("estim") else None,
               bet=getattr(cls, cfg["bet"]) if cfg.get("bet") else None,
@@ -58,6 +60,10 @@ def build(cfg):
         # the audit workflow constructs the test with one bound and installs the real one later (asn.test.u = u):
         # the object must behave as if it had been built with the bound it now holds
         obj.u = cfg["u"]
+    for k_, v_ in kb.items():
+        # tuning parameters given to the constructor and re-assigned as attributes afterwards (test.eta = ..., as for u and
+        # N): the object must behave as if it had been built with the values it holds now
+        setattr(obj, k_, cfg["kw"][k_])
     if "N_warm" in cfg and math.isfinite(N):
         # the same object is used for another population first (N is a plain attribute: sample_size(), re-used test
         # objects and notebooks re-assign it); a call with the old N must leave no trace
@@ -204,6 +210,12 @@ def gen_cfg(rng, combo=None, finite=None, n_max=12, allow_not_random=True, u=Non
         cfg["int_dtype"] = rng.choice((True, True, "uint8", "int8", "int32", "bool"))
     if rng.random() < 0.15:
         cfg["reused"] = True
+    if rng.random() < 0.12:
+        alt = {"eta": t + (u - t) * 0.3125, "c": 0.375, "d": 3.0, "f": 0.0625, "minsd": 0.03125, "g": 0.25, "lam": 0.375 / u,
+               "rate_error_2": 2.0 ** -9}
+        kb = {k_: alt[k_] for k_ in kw if k_ in alt and alt[k_] != kw[k_]}
+        if kb:
+            cfg["kw_built"] = kb
     if rng.random() < 0.2:
         cfg["flag_repr"] = rng.choice(("numpy", "int"))
     if N != "inf" and test == "wald_sprt" and rng.random() < 0.3:
